@@ -81,6 +81,10 @@ def besselj(ctx, n, z, derivative=0, **kwargs):
 def besseli(ctx, n, z, derivative=0, **kwargs):
     n = ctx.convert(n)
     z = ctx.convert(z)
+    if ctx.isint(n) and ctx.re(n) < 0:
+        # I_{-n}(z) = I_n(z) for integer n; avoids the cancellation of
+        # the gamma pole against a huge power of z for small |z|
+        n = -n
     if not z:
         if derivative:
             raise ValueError
